@@ -431,6 +431,81 @@ pub fn ref_check<S: Lin>(
     RefDecision::Accept
 }
 
+/// The library-format authentication path of leaf `i` in the reference tree over `leaf_digests`.
+pub fn ref_path(leaf_digests: &[Vec<u8>], i: usize) -> Path<MTConfig> {
+    let n = leaf_digests.len().next_power_of_two().max(2);
+    let mut leaves = leaf_digests.to_vec();
+    leaves.resize(n, Vec::new());
+    let levels = ref_tree(leaf_digests);
+    let mut auth = Vec::new();
+    // levels[0] is the bottom inner level, levels.last() the root; the path lists siblings top-down
+    for l in (0..levels.len() - 1).rev() {
+        auth.push(levels[l][(i >> (l + 1)) ^ 1].clone());
+    }
+    Path {
+        leaf_sibling_hash: leaves[i ^ 1].clone(),
+        auth_path: auth,
+        leaf_index: i,
+    }
+}
+
+/// An emulation of the scheme's prover over the harness's own matrices, with the opened vectors under
+/// the caller's control: `v_over[k]` / `wf_over[k]` replace the honest `b.M` / `r.M` of the k-th
+/// polynomial (Some(None) for wf = omit the vector). Columns and paths are the authentic ones at the
+/// Fiat-Shamir positions the *resulting* transcript dictates. With no overrides this is the honest proof.
+pub fn emulate_prover<S: Lin>(
+    ck: &Ck<S>,
+    polys: &[&S::P],
+    point: &S::Pt,
+    sp: &mut PoseidonSponge<Fr>,
+    v_over: &[Option<Vec<Fr>>],
+    wf_over: &[Option<Option<Vec<Fr>>>],
+) -> Result<Vec<MProof>, String> {
+    let mut out = Vec::new();
+    for (k, p) in polys.iter().enumerate() {
+        let (n_rows, n_cols, rows, ext) = ref_matrices::<S>(ck, p)?;
+        let cols = columns_of(&ext);
+        let n_ext = cols.len();
+        let leaves: Vec<Vec<u8>> = cols.iter().map(|c| col_hash(c)).collect();
+        let root = ref_root(&leaves);
+        let t = expected_t::<Fr>(S::sec_param(ck), S::distance(ck), n_ext).ok_or("unusable parameters")?;
+        let (_a, b) = tensor::<S>(point, n_cols, n_rows);
+        sp.absorb(&ser(&root));
+        let row_comb = |coef: &[Fr]| -> Vec<Fr> {
+            (0..n_cols)
+                .map(|j| (0..n_rows).fold(Fr::zero(), |acc, i| acc + coef[i] * rows[i][j]))
+                .collect()
+        };
+        let mut wf_out = None;
+        if S::wf(ck) {
+            let r = sp.squeeze_field_elements::<Fr>(n_rows);
+            let honest = row_comb(&r);
+            let chosen = match wf_over.get(k).cloned().flatten() {
+                Some(x) => x,
+                None => Some(honest),
+            };
+            if let Some(w) = &chosen {
+                sp.absorb(w);
+            }
+            wf_out = chosen;
+        }
+        sp.absorb(&S::point_vec(point));
+        let v = match v_over.get(k).cloned().flatten() {
+            Some(x) => x,
+            None => row_comb(&b),
+        };
+        sp.absorb(&v);
+        let idx = ref_indices(n_ext, t, sp);
+        let columns: Vec<Vec<Fr>> = idx.iter().map(|q| cols[*q].clone()).collect();
+        let paths: Vec<Path<MTConfig>> = idx.iter().map(|q| ref_path(&leaves, *q)).collect();
+        out.push(MProof {
+            opening: MSingle { paths, v, columns },
+            well_formedness: wf_out,
+        });
+    }
+    Ok(out)
+}
+
 pub fn proofs_mirror<S: Scheme>(proof: &Proof<S>) -> Result<Vec<MProof>, String> {
     let bytes = S::proof_bytes(proof, true);
     Vec::<MProof>::deserialize_compressed(&bytes[..]).map_err(|e| format!("proof mirror decode: {e:?}"))
